@@ -2,6 +2,7 @@
 import MysticVerif.Basic.Proto
 import MysticVerif.Model.Emitted
 import MysticVerif.Drv.C13
+import MysticVerif.Model.EmittedJoin
 
 namespace MysticVerif.DrvC14
 open MysticVerif MysticVerif.Emitted MysticVerif.DrvC13
@@ -51,6 +52,26 @@ def handle : Handler
     let k' := k * powN h n
     let p := penalty env k' inf (conds.map fun c => (c.2.1, c.2.2)) x
     return s!"ok recog={rs} conform={cs} cvals={pL cv} pen={pF p}"
+  | .sym "penj" :: args => Id.run do       -- generate_penalty(groups, ptype, join=coupler.and_/or_)
+    let some tol := (kw? args "tol").bind Val.asFloat? | return "bad-op"
+    let some rel := (kw? args "rel").bind Val.asFloat? | return "bad-op"
+    let some k := (kw? args "k").bind Val.asFloat? | return "bad-op"
+    let some h := (kw? args "h").bind Val.asFloat? | return "bad-op"
+    let some n := (kw? args "n").bind Val.asNat? | return "bad-op"
+    let some kj := (kw? args "kj").bind Val.asFloat? | return "bad-op"
+    let some x := (kw? args "x").bind Val.asFloats? | return "bad-op"
+    let some j := (kw? args "join").bind Val.asSym? | return "bad-op"
+    let some groups := (kw? args "groups").bind Val.asList? |>.bind
+      (·.mapM fun g => g.asList?.bind (·.mapM parseCond)) | return "bad-op"
+    let env := mkEnv tol rel
+    let k' := k * powN h n
+    let gs := groups.map fun g => g.map fun c => (c.2.1, c.2.2)
+    let parts := gs.map fun g => penalty env k' inf g x
+    let conf := groups.map fun g => g.all fun c => decide (c.2.1.kind = c.1)
+    let pj := if j == "and" then PJoin.and_ else PJoin.or_
+    match penJoin env k' inf kj pj gs x with
+    | some v => return s!"ok res=value pen={pF v} parts={pFs parts} conform={pL (conf.map pB)}"
+    | none => return s!"ok res=raises parts={pFs parts} conform={pL (conf.map pB)}"
   | _ => "bad-op"
 
 end MysticVerif.DrvC14
